@@ -196,6 +196,17 @@ def run_b(prop, tier, want_prof):
             ids = itertools.count(1)
             nd = gen(r, ids, r.choice([1, 2, 3, 4]))
             common.tick()
+            if _ % 10 == 0:
+                # every tenth pipeline: a contiguous selection ds[a:b] with a > 0 above mapped stages (what is skipped must not be evaluated)
+                n0 = r.randint(2, 6)
+                inner = Node('map', next(ids), (('FAdd', 1),), [Node('src', next(ids), (tuple(range(10, 10 + n0)),))])
+                if r.random() < 0.5:
+                    inner = Node('map', next(ids), (('FMul', 2),), [inner])
+                a = r.randint(1, n0 - 1)
+                sl = (a, r.choice([None, n0, n0 - 1, -1]) if r.random() < 0.7 else None, r.choice([None, 1]))
+                nd = Node('slice', next(ids), (tuple(range(n0)[slice(*sl)]), sl), [inner])
+                if r.random() < 0.4:
+                    nd = Node('map', next(ids), (('FAdd', 0),), [nd])
             if not want_prof and r.random() < 0.12:
                 nd = Node('lazymap', next(ids), (r.choice([('FAdd', 1), ('FMul', 2)]),), [nd])      # a lazily applied stage on top
             take_log()
